@@ -483,7 +483,11 @@ def check_perm_backptr(res, prop, cm, roles, m, seg):
                 # element written must be m_elements[<slot now at p>]; after the write the slot at p is v
                 loc = b.loc
                 if loc[0] == 'fld' and loc[1][0] == 'idx' and loc[1][1] == THIS(roles.slots) and loc[1][2] == v:
-                    if seg.effects.index(b) > seg.effects.index(w):
+                    # v is the slot id as a VALUE (the load that the swap / store moves to p): the element it names is the same whether
+                    # its position is refreshed after the entry is moved or just before - unless a later store overrides it
+                    later = [b2 for b2 in seg.effects[seg.effects.index(b) + 1:] if b2.kind == 'BACKPTR' and b2.field == b.field
+                             and b2.loc == b.loc and b2.val != p]
+                    if not later:
                         match = True
         res.ob('R-PERM-BACKPTR', ok=match)
         if not match:
